@@ -163,9 +163,16 @@ func runC05(c *eng.Ctx) {
 		case m.Cyclic && r.Built:
 			fs = append(fs, Finding{"cycle-accepted", feat, "Build succeeded although the registered services contain a dependency cycle: " + describeCycle(m)})
 		case m.Cyclic && cls != "circular":
-			if m.Class == ClsCircular { // single defect: the class is prescribed
-				fs = append(fs, Finding{"cycle-wrong-error", feat + ":" + cls, fmt.Sprintf("Build failed, but not with a circular-dependency error (%s): %v", cls, trimErr(r.BuildErr))})
+			// "fails with a circular-dependency error exactly when ... contains a directed cycle":
+			// prescribed also when the set has a further defect
+			other := ""
+			if m.Conflict {
+				other += ":also-lifetime-conflict"
 			}
+			if m.Missing {
+				other += ":also-missing-dependency"
+			}
+			fs = append(fs, Finding{"cycle-wrong-error", feat + ":" + cls + other, fmt.Sprintf("Build failed, but not with a circular-dependency error (%s): %v", cls, trimErr(r.BuildErr))})
 		case !m.Cyclic && cls == "circular":
 			fs = append(fs, Finding{"false-cycle", feat, fmt.Sprintf("Build reports a dependency cycle but the dependency relation is acyclic: %v", trimErr(r.BuildErr))})
 		}
@@ -237,6 +244,31 @@ func runC05(c *eng.Ctx) {
 		m := NewModel(s)
 		exec(idx, s, m, "directed")
 		c.R.End(idx, eng.Hash("c05-directed", s.Canon()), true)
+	}
+	// a cycle next to another defect (a lifetime conflict on the cycle, a missing required
+	// dependency on or off the cycle): "exactly when ... contains a directed cycle" still asks
+	// for the circular-dependency error
+	for _, s := range []*Spec{
+		{Regs: []Reg{mkReg("PosA_0_2", godi.Singleton), mkReg("PosA_1_1", godi.Scoped)}},                                      // K0(K1) singleton <-> K1(K0) scoped
+		{Regs: []Reg{mkReg("PosA_0_2", godi.Transient), mkReg("PosA_1_1", godi.Scoped)}},                                      // transient <-> scoped
+		{Regs: []Reg{mkReg("PosA_0_2", godi.Scoped), mkReg("PosA_1_1", godi.Scoped), mkReg("PosA_2_8", godi.Scoped)}},         // cycle K0<->K1, K2 needs the unregistered K3
+		{Regs: []Reg{mkReg("PosA_0_6", godi.Scoped), mkReg("PosA_1_1", godi.Scoped)}},                                         // K0(K1,K2) with K2 missing, K1(K0)
+		{Regs: []Reg{mkReg("InU_0_2_Keyed", godi.Singleton, withName("k")), mkReg("InU_1_1_Keyed", godi.Scoped, withName("k"))}}, // keyed cycle + conflict
+		{Regs: []Reg{mkReg("InU_0_2_Group", godi.Singleton), mkReg("PosA_1_1", godi.Scoped, withGroup("g"))}},                 // group cycle + conflict
+		{Regs: []Reg{mkReg("PosA_3_8", godi.Singleton), mkReg("PosA_0_2", godi.Scoped), mkReg("Leaf_K1_a", godi.Scoped), mkReg("PosB_2_1", godi.Singleton)}}, // self-loop K3(K3) + unrelated conflict K2(K0 scoped)
+	} {
+		idx, mine := cr.next()
+		if !mine {
+			continue
+		}
+		c.R.Begin(idx)
+		m := NewModel(s)
+		if !m.Cyclic || (!m.Conflict && !m.Missing) {
+			panic("harness fixture of C05 (cycle next to another defect) does not have both defects:\n  " + strings.Join(s.Lines(), "\n  "))
+		}
+		c.R.Count("cycle_with_second_defect_specs", 1)
+		exec(idx, s, m, "cycle+other-defect")
+		c.R.End(idx, eng.Hash("c05-two-defects", s.Canon()), true)
 	}
 	// every unusual declaration form x every dependency slot: valid, and with the cycle closed through that slot
 	runSlotSpecs(cr, map[string]bool{"valid": true, "cycle": true}, exec, func(idx int, s *Spec) {
@@ -578,6 +610,9 @@ func runC06(c *eng.Ctx) {
 		c.R.Begin(idx)
 		check(idx, s, "directed")
 	}
+	// every unusual declaration form, every slot served: same verdict and object graph under
+	// rebuilds and permutations, dependencies constructed first
+	runSlotSpecs(cr, map[string]bool{"valid": true}, func(idx int, s *Spec, m *Model, kind string) { check(idx, s, kind) }, nil)
 	n := c.Pick(400, 8000)
 	for k := 0; k < n; k++ {
 		idx, mine := cr.next()
